@@ -193,6 +193,17 @@ pub fn build_world<S: ShortGroupSignatureScheme>(v: &Value) -> Result<World<S>, 
     }
     let schema = PresentationSchema::new_with_id(&statements, v["schema_id"].as_str().unwrap_or("schema-1"));
     let nonce = unhx(&v["nonce"]);
+    // the holder's wallet is a map: its order is the holder's business, not the schema's
+    match v["cred_order"].as_str().unwrap_or("schema") {
+        "reverse" => credentials.reverse(),
+        "rotate" => {
+            if credentials.len() >= 2 {
+                let last = credentials.len() - 1;
+                credentials.move_index(0, last);
+            }
+        }
+        _ => {}
+    }
     Ok(World { issuers, cred_issuer, credentials, statements, schema, nonce, claims: claims_all, sig_cred })
 }
 
